@@ -552,7 +552,8 @@ Proof.
   - unfold l_get. destruct (l_find keq k (c_lfu c)) eqn:E; cbn [fst]; intros k0 e0 Hi; cbn in Hi.
     + apply In_upd in Hi. destruct Hi as [(_ & ->)|(_ & Hi)]; [reflexivity | eapply NP; eauto].
     + apply In_set in Hi. destruct Hi as [(_ & _ & P)|(_ & Hi)]; [auto | eapply NP; eauto].
-  - intros k0 e0 Hi. cbn in Hi. apply In_poke in Hi. destruct Hi as [(_ & e & E & _ & P)|(_ & Hi)]; [|eapply NP; eauto].
+  - destruct (l_find keq k (c_lfu c)) eqn:E0; cbn [fst c_lfu]; [|exact NP].
+    intros k0 e0 Hi. apply In_poke in Hi. destruct Hi as [(_ & e1 & E & _ & P)|(_ & Hi)]; [|eapply NP; eauto].
     rewrite P. eapply NP. eapply l_find_In; eauto.
   - intros k0 e0 Hi. cbn in Hi. apply In_remove in Hi. destruct Hi. eapply NP; eauto.
   - destruct den; [exact NP|]. destruct (l_evict keq order (l_len (c_lfu c) * num / S den) (c_lfu c)) as [[l' sends]|] eqn:E; [|exact NP].
@@ -673,7 +674,14 @@ Proof.
     split; [|split; [reflexivity|]].
     + cbn [Cache.admissible0]. split; [apply quiet_clean; auto|]. split; [|exact I].
       split; [apply quiet_clean; auto | apply read_present].
-    + rewrite !run_cons_snd. cbn [Cache.run snd]. repeat split; auto.
+    + rewrite !run_cons_snd. cbn [Cache.run snd].
+      assert (QE : c_evq (fst (step (fst (step c (ORead k))) (OMutate k f))) = [] /\
+                   c_wbq (fst (step (fst (step c (ORead k))) (OMutate k f))) = []).
+      { cbn [Cache.step] in E1, W1 |- *. revert E1 W1.
+        destruct (l_get keq k (c_lfu c)) as [[v0|] l0]; cbn [fst c_evq c_wbq c_lfu]; intros E1 W1;
+          match goal with |- context [l_find keq k ?l] => destruct (l_find keq k l) end;
+          cbn [fst c_evq c_wbq]; rewrite ?E1, ?W1; auto. }
+      destruct QE as [QE1 QE2]. split; [exact QE1|]. split; [exact QE2|].
       apply nopers_step; auto.
   - split; [cbn; split; [apply quiet_clean; auto | exact I]|]. split; [reflexivity|].
     rewrite run_cons_snd. cbn [Cache.run snd]. apply CL; auto.
@@ -920,6 +928,21 @@ Lemma c05_stale_handle_refuted :
 Proof.
   exists w_stale. split; [reflexivity|]. split; [vm_compute; intuition discriminate|].
   intros H. vm_compute in H. discriminate H.
+Qed.
+
+(* every write-back send accepted is still not enough when the object is then mutated through a pointer obtained
+   before the write-back: the mutation does not clear `persisted`, the later flush drops the entry, the mutation is lost *)
+Definition w_wb_mut : list (op (K:=N) (V:=N)) :=
+  [OPut 0 11; OWriteBack [0]; OSaveCompletes true; OMutate 0 (fun _ => 12); OFlushReopen; ORead 0].
+
+Lemma c05_writeback_mutation_refuted :
+  exists ops, adm0W emptyW ops /\ ~ In Bad (fst (runW emptyW ops)) /\
+              rets (fst (runW emptyW ops)) <> rets (fst (specW sW ops)).
+Proof.
+  exists w_wb_mut. split; [|split].
+  - unfold w_wb_mut. cbn. quiet_tac.
+  - vm_compute. intuition discriminate.
+  - intros H. vm_compute in H. discriminate H.
 Qed.
 
 (* the hypotheses of c05_refines are satisfiable by a history that evicts, reloads, deletes and reopens *)
